@@ -414,7 +414,23 @@ func sameContainer(a cdrContainer, b ContainerRec) bool {
 // CheckC03: every file image ever written is a well-formed TS 32.297 file.
 func CheckC03(h *History) []Violation {
 	var v vio
+	// A file written through a handle passes through transient states (kind "write"); what
+	// must be well-formed is every consistent point: whole-file writes, sync, close, and
+	// whatever is on disk for a path when the op that wrote it returns.
+	lastOfOp := map[int]bool{}
+	for _, o := range h.Ops {
+		seen := map[string]int{}
+		for i := o.PreWrites; i < o.PostWrites && i < len(h.Journal); i++ {
+			seen[h.Journal[i].Path] = i
+		}
+		for _, i := range seen {
+			lastOfOp[i] = true
+		}
+	}
 	for i, w := range h.Journal {
+		if w.Kind == "write" && !lastOfOp[i] {
+			continue
+		}
 		_, errs := readCdrFile(w.Data)
 		if len(errs) == 0 {
 			continue
@@ -998,8 +1014,42 @@ func snapDiffClass(a, b string) string {
 
 // ---------------------------------------------------------------- C11
 
+// CheckPromptDuringNotification: with every peer prompt, a request of a subscriber must not
+// wait for that subscriber's outstanding recharge notification.
+func CheckPromptDuringNotification(h *History, prop string) []Violation {
+	var v vio
+	const bound = 5_000_000_000
+	ops := append([]*OpResult(nil), h.Callbacks...)
+	for _, o := range h.Ops {
+		if o.Op.Role == "during-notification" {
+			ops = append(ops, o)
+		}
+	}
+	for _, o := range ops {
+		if !o.Done {
+			v.add(prop, "blocked-by-notification", "op="+o.Op.Kind, o.Op.ID, "%s sent for %s while its recharge notification was outstanding never returned; parked:\n%s", o.Op.Kind, o.Op.Supi, o.Stacks)
+			return v.list
+		}
+		if d := o.EndNs - o.StartNs; d > bound {
+			v.add(prop, "blocked-by-notification", "op="+o.Op.Kind, o.Op.ID,
+				"%s sent for %s while its recharge notification was outstanding took %.1f s of simulated time (every peer answers within milliseconds): the subscriber was blocked until the notification ended",
+				o.Op.Kind, o.Op.Supi, float64(d)/1e9)
+			return v.list
+		}
+		if is5xx(o.Status) {
+			v.add(prop, "5xx", "role=callback", o.Op.ID, "%s sent during a notification answered %d", o.Op.Kind, o.Status)
+			return v.list
+		}
+	}
+	if h.Scenario.Cfg.SinkCallback != nil && len(h.Notifs) > 0 && len(h.Callbacks) == 0 && !h.Aborted {
+		v.add(prop, "blocked-by-notification", "callback-missing", -1, "the request the SMF sent from its notification handler never completed")
+	}
+	return v.list
+}
+
 func CheckC11(h *History) []Violation {
 	var v vio
+	v.list = append(v.list, CheckPromptDuringNotification(h, "C11")...)
 	for _, o := range h.Ops {
 		if o.Skipped != "" || o.Op.Kind == "sleep" {
 			continue
